@@ -397,3 +397,34 @@ pub fn run_legacy(rng: &mut ChaCha20Rng, mon: &mut Monitor) {
         }
     }
 }
+
+/// re-judge a stored `mksetproof-tx` witness (committed map, proof mirror, claimed transactions)
+pub fn replay(r: &serde_json::Value, mon: &mut Monitor) -> bool {
+    let (Some(RefNode::Map(top)), Some(m)) = (RefNode::from_json(&r["map"]), MapProofM::from_json(&r["proof"])) else { return false };
+    let Ok(map) = MapWorld::new(top, vec![b"Tx/aa/bb/1/2".to_vec(), b"Tx/cc/bb/1/2".to_vec()]) else { return false };
+    // committed transactions = the "Tx/<tx>/<block hash>/<number>/<slot>" leaves of the committed map
+    let txs: Vec<CardanoTransaction> = map
+        .bottom
+        .iter()
+        .filter_map(|l| {
+            let s = String::from_utf8(l.clone()).ok()?;
+            let p: Vec<&str> = s.split('/').collect();
+            if p.len() == 5 && p[0] == "Tx" {
+                Some(CardanoTransaction::new(p[1], BlockNumber(p[3].parse().ok()?), SlotNumber(p[4].parse().ok()?), p[2]))
+            } else {
+                None
+            }
+        })
+        .collect();
+    let Some(items) = r["items"].as_array().and_then(|a| {
+        a.iter()
+            .map(|e| Some(CardanoTransaction::new(e[0].as_str()?, BlockNumber(e[1].as_u64()?), SlotNumber(e[2].as_u64()?), e[3].as_str()?)))
+            .collect::<Option<Vec<_>>>()
+    }) else {
+        return false;
+    };
+    let w = SetWorld { map, blocks: vec![], txs, ranges: vec![] };
+    let accepted = judge_txs(&w, &items, &m, r["class"].as_str().unwrap_or("replay"), mon);
+    println!("replay: MkSetProof<CardanoTransaction> case -> {}", if accepted { "Accepted" } else { "not accepted" });
+    true
+}
